@@ -17,7 +17,7 @@ ASSUMPTIONS = g.ASSUMPTIONS + ['vertical range: Text::lines adds line_height per
                                '(crlf_ok; Text strips exactly one trailing CR per line, the condition is shown necessary by C15_crlf_needs_condition)']
 TRUSTED = ['modelled, not verified: str::split(\'\\n\') / strip_suffix(\'\\r\') on code point lists (UTF-8 continuation bytes cannot be 0x0A/0x0D); exercised by non-ASCII cases']
 PARTIAL = []
-LEVEL_TEXT = ('Proof: 23 Coq theorems over the model of Text::lines/draw/bounding_box + MonoTextStyle (any font record): draw_string and Text::draw return the position '
+LEVEL_TEXT = ('Proof: 25 Coq theorems over the model of Text::lines/draw/bounding_box + MonoTextStyle (any font record): draw_string and Text::draw return the position '
               'measure_string predicts (for spacing 0 - every built-in font, by reflection over the regenerated table - or any colour set); drawing s1 then s2 at the returned '
               'position gives the pixel map and returned position of s1+s2 (left aligned, no spacing, also after complete lines); the k-th line is k line heights lower and its '
               'box starts at / ends at / is centred within half a pixel on x; the baseline setting is exactly a vertical move by the documented offset; text with "\\n" equals '
